@@ -6,7 +6,12 @@ Part 1, complete sweep.  For every table configuration (public table; private ta
 every first-touch variant, every element, isotope, element ion and isotope ion of the table is
 looked up through every route; all results must be the one object, the key fields of the result
 must equal the key that was used, iteration must be strictly increasing and complete, and every
-invalid neighbour of a valid key must raise.
+invalid neighbour of a valid key must raise.  Last, per element: every route that hands a CONTAINER to
+the caller (`.isotopes`, `.ions` of the element, of an isotope, of an ion, via symbol()) x every in-place
+mutation the container's type allows (list: reverse, sort descending, pop first/last, overwrite, clear,
+append/insert a bogus key; dict/set likewise; iterators are consumed; tuples are immune): afterwards
+iteration (same objects, same order), the isotopes list, el[A], 'A-Sym' lookups, the charges, ion[q] and
+the invalid neighbours must be as before - a returned container is the caller's own copy.
 
 Part 2, lookup-sequence graph.  Ion objects are created on first use, so identity is a property of
 the ORDER of first lookups.  State = a fresh private table + the event history.  Depth-first: each
@@ -27,13 +32,17 @@ META = dict(
     technique="complete atom x route sweep + bounded-exhaustive lookup-order exploration on fresh tables",
     rule=("sweep: one case per (table configuration, first-touch variant, Z, A, charge) - all 119 elements, "
           "all isotopes, all element ions, all isotope ions - each compared over >= 8 lookup routes, plus one "
-          "case per invalid neighbour key (a key whose literal text no atom's fields can match); sequence "
+          "case per invalid neighbour key (a key whose literal text no atom's fields can match), plus one case per "
+          "(element, container-returning route, in-place mutation of the returned container) after which "
+          "iteration, isotope lists, el[A], 'A-Sym' lookups, charges and ion[q] are re-checked; sequence "
           "graph: one state per event history on its own copy of a fresh private table, non-trivial = the "
           "last event obtains a (Z, A, charge) through a route different from the one that produced it first"),
     bound=dict(
-        quick="complete sweep of the public and one private table x 3 first-touch variants; all lookup "
+        quick="complete sweep of the public and one private table x 3 first-touch variants (incl. 7 container "
+              "routes x up to 8 mutations per element); all lookup "
               "histories of length <= 4 over the 12-event alphabet",
-        thorough="complete sweep of public, private and private-vs-private x 3 first-touch variants; all "
+        thorough="complete sweep of public, private and private-vs-private x 3 first-touch variants (incl. the "
+                 "container mutations); all "
                  "lookup histories of length <= 5 over the 12-event alphabet"),
     assumptions=[
         "tables are mass- and density-initialised and no lazy loader runs (loaders that add isotopes are "
@@ -47,6 +56,10 @@ META = dict(
         "renamed bytes equal the pickle the library itself writes for the restored atom",
         "a formula-parse event that raises or yields other atoms is C01's subject and is not judged here",
         "module attributes exist for the public table only",
+        "a list (dict, set) that a lookup route hands out belongs to the caller: changing it in place must not "
+        "change what the table iterates over or resolves (identity and 'visits isotopes by increasing A exactly "
+        "once' are properties of the table, not of what a caller did to a returned value); immutable return "
+        "values (tuples) are counted as immune; the table's own `properties` list is not a lookup result",
     ],
     level_text=("every atom of the finite tables and every history of first lookups within the depth bound is "
                 "executed on the real implementation; identity is decided with `is`, never by equality"),
@@ -510,7 +523,7 @@ class Sweep(object):
             ns.update(q=ions[0])
             routes += [("ion.isotopes", "T[Z].ion[q].isotopes", "isotopes", bogus_A),
                        ("ion.ions", "T[Z].ion[q].ions", "ions", bogus_q)]
-        vars_ = dict(ev, BOGUS=0)
+        vars_ = dict(ev)
         if it_numbers:
             vars_["A"] = it_numbers[0]
         if ions:
@@ -578,7 +591,7 @@ class Sweep(object):
             elif isinstance(c0, dict):
                 ops = [("add-bogus", "C[BOGUS] = None")] + ([("pop-item", "C.popitem()"), ("clear", "C.clear()")] if c0 else [])
                 tname = "dict"
-            elif isinstance(c0, (set, bytearray)):
+            elif isinstance(c0, set):
                 ops = [("add-bogus", "C.add(BOGUS)")] + ([("pop", "C.pop()"), ("clear", "C.clear()")] if c0 else [])
                 tname = "set"
             elif hasattr(c0, "__next__"):
